@@ -53,12 +53,13 @@ def main():
     notes = []
 
     # ---- 1. proof obligations --------------------------------------------
-    ok_build, log = core.build_lean([f"RaftLogModel.Props.{pid}", "driver"])
+    modules = P.get("modules", [pid])
+    ok_build, log = core.build_lean([f"RaftLogModel.Props.{m}" for m in modules] + ["driver"])
     forbidden = core.grep_forbidden()
-    thms, ok_audit, alog = core.audit_axioms(pid)
+    thms, ok_audit, alog = core.audit_axioms(pid, modules)
     # independent re-check of the compiled module by Lean's `leanchecker`
-    rc_lc, out_lc, err_lc = core.sh(["lake", "env", "leanchecker", f"RaftLogModel.Props.{pid}"], cwd=core.LEAN,
-                                    timeout=1800) if ok_build else (1, "", "not built")
+    rc_lc, out_lc, err_lc = core.sh(["lake", "env", "leanchecker"] + [f"RaftLogModel.Props.{m}" for m in modules],
+                                    cwd=core.LEAN, timeout=1800) if ok_build else (1, "", "not built")
     if rc_lc != 0:
         ok_audit = False
         alog += "\nleanchecker: " + (out_lc + err_lc)[-1500:]
@@ -109,7 +110,9 @@ def main():
     cov = {
         "obligations": obligations,
         "discharged": discharged if proof_ok else min(discharged, max(0, obligations - 1)),
-        "checker_cmd": f"cd /verif/lean && lake build RaftLogModel.Props.{pid} && lake env lean RaftLogModel/Audit/{pid}.lean && lake env leanchecker RaftLogModel.Props.{pid}",
+        "checker_cmd": "cd /verif/lean && " + " && ".join(
+            f"lake build RaftLogModel.Props.{m} && lake env lean RaftLogModel/Audit/{m}.lean && lake env leanchecker RaftLogModel.Props.{m}"
+            for m in modules),
         "trusted_base": [
             "Lean 4.33 kernel",
             "axioms: " + ", ".join(sorted({a for ax in thms.values() for a in ax})),
